@@ -3,6 +3,21 @@
 import json, subprocess
 ALL=[f"C{i:02d}" for i in range(1,21)]
 CHECKS={
+ "C09": dict(level="model_checking", engine="E2-bfs",
+   technique="explicit-state BFS to fixpoint over the real ByteBuffer in lock-step with a three-region reference model",
+   text="All reachable states of a real ByteBuffer (NewByteBuffer and zero value, so every reallocation step is crossed) under the whole public API with integer domains {MinInt,-1,0,1,2,3,len,len+1,MaxInt}, saved+readable+written <= 6/10 (quick) or 9/18 (thorough); after every transition all three regions, every live slot and the length sum are compared with the model and a panic is a violation. Histories of any length within the length bound are covered.",
+   note="Byte values abstracted to fresh tags; spare capacity above 12 bytes merged (argument in the check header); Discard is only driven with slots obtained from Save and maintained with OffsetSlot as documented; scripted readers/writers obey the io contracts.",
+   design="4/C09"),
+ "C11": dict(level="model_checking", engine="E2-bfs",
+   technique="explicit-state BFS to fixpoint over the real MirroredBuffer; claims judged by address against a ring model and read back through both mappings",
+   text="All reachable (head,tail,used) states of a real MirroredBuffer for 1-6 (quick) / 1-8 (thorough) pages and three sizes that get rounded up, under Claim/Commit/Consume with every half-page amount, size+1, and up to 2/3 odd amounts per history, plus Reset; plus a create/use/Destroy lifecycle per size checked against /proc/self/maps and the backing file.",
+   note="Amounts are non-negative; odd amounts are bounded per history (the unbounded space has size^2/2 states); real buffers are pooled and re-initialised with Reset(), whose effect is re-verified on every reuse; constructor failure paths belong to C13.",
+   design="4/C11"),
+ "C20": dict(level="model_checking", engine="E2-bfs",
+   technique="explicit-state BFS to fixpoint over a real ByteBuffer + SlotSequencer / SlotOffsetter with the complete concrete state as key",
+   text="All reachable states of ByteBuffer+SlotSequencer(3,6) with sequence numbers 0-4 and lengths 1-3 (thorough: also (4,8) and (2,16)) under push (including duplicates and pushes beyond both capacities), pop of any number, and reset, and of ByteBuffer+bare SlotOffsetter; every pop compares the bytes addressed by the returned slot with the bytes saved under that number, discards, and compares the whole save area. Fixpoint, so draining and never-draining histories of any length are covered.",
+   note="A push refused with an error is accepted at any time (capacity includes the offsetter's index space); the caller-side protocol (discard a refused packet, discard each popped slot before the next pop) is the documented one.",
+   design="4/C20"),
  "C10": dict(level="model_checking", engine="E2-bfs",
    technique="explicit-state BFS to fixpoint over the real BipBuffer (implementation is the transition function) in lock-step with a FIFO-of-chunks reference model",
    text="Complete reachable state space of a real BipBuffer for sizes 1-6 (quick) / 1-12 (thorough) under Claim/Commit/Consume(0..size+1)/Reset; every state's invariant (Committed, Head contiguity and FIFO order, queued bytes intact) and every transition's result compared with the model. Right level because the state space per size is finite and small, so all histories of any length are covered, not a sample.",
